@@ -145,8 +145,12 @@ fn collect_proc_dec(
         local_table: super::get_local_table(pd, global_table),
         global_table: Some(global_table),
     };
-    pd.info
-        .slice(tokens)
+    let global_lookup_table = LookupTable {
+        local_table: None,
+        global_table: Some(global_table),
+    };
+    let tokens = pd.info.slice(tokens);
+    tokens
         .iter()
         .enumerate()
         .filter_map(|(index, token)| {
@@ -161,6 +165,11 @@ fn collect_proc_dec(
                     SemanticTokenModifier::Declaration.into(),
                 ))
             } else if let TokenType::Ident(name) = &token.token_type {
+                let lookup_table = if super::names_global_entity(tokens, index) {
+                    &global_lookup_table
+                } else {
+                    &lookup_table
+                };
                 lookup_table.lookup(name).map(|entry| match &entry {
                     Entry::Type(_) => create_semantic_token(
                         token,
